@@ -2,7 +2,8 @@
   Token parser for container cases (shared by the C02 / C05 / C04 drivers).
 
     case  := CFG NODE V TABLE [extra tokens…]
-    CFG   := 4 bits: slicePrepend recordKeyPath interPath lazyWrap
+    CFG   := 4 bits: slicePrepend recordKeyPath interPath lazyWrap, optionally `:id,id…` = the members the
+             container's code cannot call at all (`Cont.seen`)
     TY    := any|str|int|bool|f64|unit | sl TY | mp TY TY | ptr TY | st n | ot n
     V     := n | a TY id | s TY N V… | sn TY | m TY TY N (V V)… | mn TY TY | t sid N (name V)… | p TY V | pn TY
     MODS  := 3 bits: optional nilable nonOptional
@@ -79,11 +80,23 @@ def mods : P Mods
     | _ => none
   | [] => none
 
-def cfg : P Cfg
+def cfgBits (t : String) : Option Cfg :=
+  match t.toList with
+  | [a, b, c, d] =>
+    some { slicePrepend := a == '1', recordKeyPath := b == '1', interPath := c == '1', lazyWrap := d == '1' }
+  | _ => none
+
+def natList (s : String) : Option (List Nat) :=
+  (s.splitOn ",").mapM (·.toNat?)
+
+def cfg : P (Cfg × List Nat)
   | t :: ts =>
-    match t.toList with
-    | [a, b, c, d] =>
-      some ({ slicePrepend := a == '1', recordKeyPath := b == '1', interPath := c == '1', lazyWrap := d == '1' }, ts)
+    match t.splitOn ":" with
+    | [b] => (cfgBits b).map (fun c => ((c, []), ts))
+    | [b, sk] => do
+      let c ← cfgBits b
+      let l ← natList sk
+      some ((c, l), ts)
     | _ => none
   | [] => none
 
@@ -213,17 +226,20 @@ def envOf (tbl : List (Nat × V × MRes)) : Env := fun m v =>
 
 structure Case where
   cfg : Cfg
-  node : Node
+  node : Node          -- the node the constructor builds (`Cont.built skip written`)
+  written : Node       -- the schema as written (what the property speaks about)
   input : V
-  env : Env
+  env : Env            -- what the container sees of its members (`Cont.seen skip own`)
+  own : Env            -- the members' own verdicts (what the property speaks about)
+  skip : List Nat
   rest : List String
 
 def parseCase (ts : List String) : Option Case := do
-  let (c, ts) ← cfg ts
+  let ((c, sk), ts) ← cfg ts
   let (n, ts) ← node ts
   let (v, ts) ← val ts
   let (tbl, ts) ← counted entry ts
-  some { cfg := c, node := n, input := v, env := envOf tbl, rest := ts }
+  some { cfg := c, node := built sk n, written := n, input := v, env := seen sk (envOf tbl), own := envOf tbl, skip := sk, rest := ts }
 
 /-! rendering of path sets -/
 
